@@ -1141,12 +1141,10 @@ class TaskPool:
 
         for itask in tasks:
             if itask.tdef.name in orphans:
-                if (
-                    itask.state(TASK_STATUS_WAITING)
-                    or itask.state.is_held
-                    or itask.state.is_queued
-                ):
+                if itask.state(TASK_STATUS_WAITING):
                     # Remove orphaned task if it hasn't started running yet.
+                    # (NOTE: the held flag says nothing about this, active
+                    # tasks can be held too.)
                     self.remove(itask, 'task definition removed')
                 else:
                     # Keep active orphaned task, but stop it from spawning.
